@@ -69,6 +69,11 @@ False alarm corrected while adding (c): my first version demanded that ``time_st
 ``dt = np.float32(0)`` NumPy-2 promotion turns a python-float clock into a float32 (soundness note 3 below), i.e. the value is rounded once
 to the working precision.  Check too strict: the clock after ``time_step(0)`` is now compared within one working-precision rounding
 (eps_t * |t|); the integral is still compared by value.
+ (f) grid origin -- the last of every four ``run_direct`` histories builds the forcing object with eul_grid_coord_shift exactly 0 / dx/4 /
+     x0 + dx/2 (x0 = -2 dx, +3.5 dx), markers moved with the origin, the model evaluated with that shift (cell centre i at i*dx + shift).
+     Counter vbf_direct_histories_grid_origin_not_half_a_cell.  (The interactions pass their shift straight through; C06/C07 drive the
+     communicators with the same origins.)  Not demonstrated with its own tools/mut.sh run (C06/C07 demonstrate the two origin-related
+     changes on the communicators); unchanged tree HELD for seeds 0-3 quick and seed 0 thorough.
 Self-test of (a)-(e) (tools/mut.sh, quick tier, seed 0, VBF; every witness carries the new dimension):
   M18 (a) spreading target ``np.ascontiguousarray(eul_grid_forcing_field)`` (a copy for non-contiguous fields)          VIOLATION  eul-forcing!=model, only in histories with 'eulerian_field_layout'
                                                                                                                                     views | fortran and in direct calls with such arguments
@@ -183,6 +188,7 @@ REQUIRE = {
     "vbf_time_steps_with_exactly_zero_velocity_mismatch": 40,
     "vbf_evaluations_zero_stiffness_nonzero_damping": 30,
     "vbf_evaluations_zero_damping_nonzero_stiffness_and_integral": 30,
+    "vbf_direct_histories_grid_origin_not_half_a_cell": 12,
     "vbf_ctor_scalars_as_python-float": 8, "vbf_ctor_scalars_as_np.float64": 8, "vbf_ctor_scalars_as_working-precision-scalar": 8, "vbf_ctor_scalars_as_0d-array": 8,
 }
 K = 16.0
@@ -533,8 +539,12 @@ def run_direct(rec, rng, sh, j):
     pool = POOL[d][sh["pool"]]
     dxv = real_t(pool["dx"])
     dx = float(dxv)
-    shiftv = real_t(dxv / 2)
+    # grid origin: the last history of every four is built with an eul_grid_coord_shift that is NOT dx/2 (cell centre i at i*dx + shift):
+    # exactly 0, dx/4, or x0 + dx/2 for a domain starting at x0 = -2 dx / +3.5 dx -- one variant per (rep, pool), all four per (dim, dtype)
+    origin = ("zero", "quarter-cell", "domain-starts-at-minus-2dx", "domain-starts-at-plus-3.5dx")[(sh["rep"] + 2 * sh["pool"]) % 4] if j % 4 == 3 else None
+    shiftv = real_t({None: dx / 2, "zero": 0.0, "quarter-cell": dx / 4, "domain-starts-at-minus-2dx": -1.5 * dx, "domain-starts-at-plus-3.5dx": 4.0 * dx}[origin])
     shift = float(shiftv)
+    off_origin = shift - float(real_t(dxv / 2))  # markers move with the grid origin
     lo_n, hi_n = SHAPE_RANGE[d]
     shape = util.shape2d(rng, lo_n, hi_n) if d == 2 else util.shape3d(rng, lo_n, hi_n)
     ext = [shape[d - 1 - a] * dx for a in range(d)]
@@ -558,6 +568,10 @@ def run_direct(rec, rng, sh, j):
         ckw.update(eul_grid_coord_shift=scalar_as(kind, shiftv, real_t), interp_kernel_width=2)
     meta = {"dim": d, "dtype": sh["dtype"], "shape": list(shape), "dx": dx, "N": N, "object": "VirtualBoundaryForcing (direct)", "scalars_passed_as": kind,
             "zero_coefficient": zero_mode, "reset": reset}
+    if origin is not None:
+        meta["eul_grid_coord_shift"] = shift
+        rec.count("vbf_direct_histories_grid_origin_not_half_a_cell")
+        rec.count(f"vbf_direct_histories_grid_origin_{origin}")
     rec.count("vbf_direct_histories")
     rec.count(f"vbf_ctor_scalars_as_{kind}")
     ops = []
@@ -601,7 +615,7 @@ def run_direct(rec, rng, sh, j):
     def inputs(rest=False):
         """(u, X, V): flow field in working precision, float64 marker positions >= 2.5 cells inside and marker velocities (the forcing
         grids' arrays are float64); rest: fluid and markers at rest"""
-        X = np.array([rng.uniform(lo[a], hi[a], N) for a in range(d)])
+        X = np.array([rng.uniform(lo[a], hi[a], N) for a in range(d)]) + off_origin
         if rest:
             return np.zeros((d, *shape), real_t), X, np.zeros((d, N))
         u = _gen_u(rng, shape, d, real_t, float(rng.choice([1e-2, 1.0, 1.0, 1e2])))
